@@ -18,10 +18,10 @@ import e2e_common as ec
 CFG = {
     "C03": {"props": ["C03", "C03Num"], "profiles": [("control", 0.8), ("int", 0.2)],
             "quick": (2000, 480), "thorough": (20000, 3000), "per_func": 3, "sim": {"quick": 240, "thorough": 1600},
-            "what": "control flow / operand stack / locals"},
-    "C04": {"props": ["C04", "C03Num"], "profiles": [("calls", 0.85), ("init", 0.15)],
+            "opt": {"quick": 8, "thorough": 120}, "what": "control flow / operand stack / locals"},
+    "C04": {"props": ["C04", "C04Mangle", "C03Num"], "gens": [("Mangle", "gen_mangle")], "profiles": [("calls", 0.85), ("init", 0.15)],
             "quick": (1500, 400), "thorough": (12000, 3000), "per_func": 4, "sim": {"quick": 300, "thorough": 1600},
-            "what": "direct / indirect / recursive / imported calls"},
+            "opt": {"quick": 28, "thorough": 400}, "what": "direct / indirect / recursive / imported calls"},
 }
 TOKEN_MODES = ((False, False), (False, True), (True, False), (True, True))       # (-m, -p)
 
@@ -31,12 +31,73 @@ def make_jobs(env, specs, per_func):
             for s in specs]
 
 
+def has_elems(spec):
+    try:
+        return bool(ec.load_module(spec)[0].elems)
+    except Exception:
+        return False
+
+
+KEY_UNDERSCORE = "import-mangling-underscore-at-module-field-boundary"       # recorded in known_findings.txt (open)
+MAX_REPORTED = 8          # modules reported per run (each with its replay); further differing modules are only counted
+
+
+def ref_escape(name):
+    """the documented identifier mangling of c.c (reference implementation: alphanumerics except the escape character 'X' stay, a
+    second consecutive '_' is written "__", every other byte X%02X) — what Props/C04Mangle.lean proves injective on single names"""
+    out = []
+    prev = None
+    for c in bytes(name):
+        if c == 0x5F:
+            out.append("__" if prev == 0x5F else "_")
+        elif c != 0x58 and (0x30 <= c <= 0x39 or 0x41 <= c <= 0x5A or 0x61 <= c <= 0x7A):
+            out.append(chr(c))
+        else:
+            out.append("X%02X" % c)
+        prev = c
+    return "".join(out)
+
+
+def underscore_boundary_collision(spec):
+    """DISTINCT (module, field) import names of one C name space (functions; struct fields = memories, tables, globals) that the
+    documented scheme `esc(module) ++ "__" ++ esc(field)` maps to the same identifier: possible only when underscores touch the
+    module/field boundary (Props/C04Mangle.mangle_injective covers every other pair).  This is the recorded finding KEY_UNDERSCORE;
+    a collision that the reference scheme does not produce (e.g. a change of the escaping rule) is never attributed to it."""
+    try:
+        m = ec.load_module(spec)[0]
+    except Exception:
+        return None
+    seen = {}
+    for im in m.imports:
+        space = "func" if im.kind == "func" else "field"
+        pair = (bytes(im.module), bytes(im.field))
+        key = (space, ref_escape(im.module) + "__" + ref_escape(im.field))
+        if key in seen and seen[key] != pair:
+            return [list(map(repr, seen[key])), list(map(repr, pair)), key[1]]
+        seen.setdefault(key, pair)
+    return None
+
+
 def judge(chk, prop, res, stats):
     sid = res["id"]
     if res.get("error"):
         stats["errors"].append("%s: %s" % (sid, res["error"]))
         return False
     found = False
+    coll = None
+    if any(b["diffs"] or b.get("init_diffs") or b["real"]["instantiate"][0] == "build_error" for b in res["builds"]):
+        coll = underscore_boundary_collision(res["spec"])
+    if coll:
+        chk.violation(KEY_UNDERSCORE, "two distinct imports %s and %s are mangled to the same C identifier %s (underscores at the module/field "
+                      "boundary): the generated C cannot tell them apart (wrong callee / duplicate struct member)" % tuple(coll),
+                      ec.replay_obj(res, {"collision": coll, "first_build": [res["builds"][0]["real"]["instantiate"], res["builds"][0]["diffs"][:2]]}), True)
+        stats["underscore_boundary_modules"] = stats.get("underscore_boundary_modules", 0) + 1
+        return True
+    if any(b["diffs"] or b.get("init_diffs") for b in res["builds"]):
+        if stats.setdefault("reported_modules", 0) >= MAX_REPORTED:
+            stats["not_reported_same_run"] = stats.get("not_reported_same_run", 0) + 1      # one cause usually hits many modules
+            return True
+        stats["reported_modules"] += 1
     for b in res["builds"]:
         ri = b["real"]["instantiate"]
         stats["calls_compared"] += b["info"]["compared_calls"]
@@ -71,7 +132,7 @@ def run(tier, PROP="C03"):
         "Model.Emit/Model.Render are hand models of c.c: tied on every run by emit-tokens (coverage below)"]
     chk.assumptions = ["gcc gives goto/labels/switch and calls through cast function pointers of the same signature the structured meaning MiniC assigns (exercised by every e2e run)",
                        "out-of-bounds memory/table accesses and call_indirect signature mismatches are outside the property (w2c2 emits no checks): scripts stop before the first such call"]
-    pr = ec.prove_if_present(chk, cfg["props"], ec.GENS + [("LoadStore", "gen_loadstore")])
+    pr = ec.prove_if_present(chk, cfg["props"], ec.GENS + [("LoadStore", "gen_loadstore")] + cfg.get("gens", []))
     broken = list(pr["errors"])
     n_tok, n_e2e = cfg[tier]
     stats = {"errors": [], "calls_compared": 0, "host_calls": 0}
@@ -104,7 +165,11 @@ def run(tier, PROP="C03"):
         e2e_specs = corpus + [by_id[s] for s in tok_bad if s in by_id and by_id[s] not in corpus]
         for g, n in zip(gen, share_e2e):
             e2e_specs += [s for s in g[:n] if ec.spec_id(s) not in tok_bad]
-        results = ec.run_jobs(make_jobs(env, e2e_specs, cfg["per_func"]))
+        # ---- the same pipeline with the output options -p / -m / -p -m (module-level text: InitTables, prototypes, exports array):
+        #      corpus + generated modules (those with element segments first); table dump, results, host trace vs V8 as above
+        pool = corpus + sorted((s for g, n in zip(gen, share_e2e) for s in g[:min(n, 4 * cfg["opt"][tier])]), key=lambda s: not has_elems(s))
+        opt_specs = ec.option_variants(pool, cfg["opt"][tier])
+        results = ec.run_jobs(make_jobs(env, e2e_specs + opt_specs, cfg["per_func"]))
         ops, traps, trunc = {}, {}, 0
         behav = set()
         for res in results:
@@ -153,6 +218,11 @@ def run(tier, PROP="C03"):
             "e2e_modules": len([r for r in results if not r.get("error")]), "e2e_calls_compared": stats["calls_compared"],
             "e2e_host_calls_compared": stats["host_calls"], "e2e_scripts_truncated_at_v8_only_trap": trunc,
             "e2e_outcomes": traps,
+            "differing_modules_not_reported_individually": stats.get("not_reported_same_run", 0),
+            "modules_hit_by_known_finding_" + KEY_UNDERSCORE: stats.get("underscore_boundary_modules", 0),
+            "e2e_option_variants": {t: sum(1 for r in results if not r.get("error") and (r["spec"].get("opt_tag") or "") == t) for t in ("-p", "-m", "-p-m")},
+            "e2e_option_variants_with_tables_compared": sum(1 for r in results if not r.get("error") and r["spec"].get("opt_tag") and
+                                                            any((b["real"].get("table") or []) != [] for b in r.get("builds", []))),
             "sim_semantics_module_specs": len(sim_specs), "op_histogram": ec.top(ops, 60), "corpus_modules": len(corpus),
             "traces_validated_against_impl": stats["calls_compared"],
         })
@@ -166,7 +236,7 @@ def run(tier, PROP="C03"):
         import common
         for mname, msg in common.leanchecker(chk, pr["modules"]):
             broken.append({"kind": "leanchecker", "msg": "%s: %s" % (mname, msg)})
-    if broken and not chk.violations and not chk.known_hit:
+    if broken and not chk.violations:          # (a hit of the recorded finding KEY_UNDERSCORE never explains a broken obligation / tie)
         chk.violation("tie-or-proof-broken",
                       "a proof obligation or a correspondence (emit-tokens / sim-semantics) no longer checks; e2e (incl. every module whose tokens differ) "
                       "found no input on which the compiled output of the real w2c2 disagrees with the specification",
